@@ -575,6 +575,9 @@ def range_corpus(F, tier, name):
         recs.append(r)
     recs += gen.g_beyond_range(F, rng, 1 if q else 5)
     recs += gen.g_subnormal_neighbours(F, rng, tier)
+    # the inputs on which Eisel-Lemire itself declines (low product word all ones): the only way an out-of-range or
+    # far-subnormal SHORT input reaches the big-integer path of the table-driven builds
+    recs += gen.g_lo_ones(F, rng, tier)
     for ef in (F.emaxfield - 1, F.emaxfield - 2, 1, 2):
         for fr in ((0, (1 << F.mbits) - 1) if q else (0, 1, (1 << F.mbits) - 1, (1 << F.mbits) - 2)):
             for r in gen.midpoint_variants(F, (ef << F.mbits) | fr, rng, tier):
@@ -859,6 +862,20 @@ def round_inputs(F, rng, tier):
                 for variant in ("nearest", "down"):
                     out.append({"t": "round", "fmt": F.name, "mant": core.limbs(mant), "exp": e, "variant": variant,
                                 "tag": "round"})
+        # the round bit plus / minus ONE bit at position j below it (and that bit alone), for j at and next to every byte /
+        # half-word / word boundary (all j in the thorough tier): a sticky flag folded from a narrower word, a compare
+        # done on a part of the truncated bits
+        if s >= 2 and keptbits > 0:
+            js = range(0, s - 1) if not q else sorted({j for j in (0, 1, 7, 8, 15, 16, 23, 24, 31, 32, 33, 39, 40, 47, 48, 55, 56, s - 3, s - 2)
+                                                       if 0 <= j <= s - 2})
+            half = 1 << (s - 1)
+            for k in (top, top | 1):
+                for j in js:
+                    for t in (half + (1 << j), half - (1 << j), 1 << j):
+                        mant = (k << s) | t
+                        if mant >> 63 != 1:
+                            continue
+                        out.append({"t": "round", "fmt": F.name, "mant": core.limbs(mant), "exp": e, "variant": "nearest", "tag": "round:one-bit"})
     return out
 
 
@@ -903,7 +920,7 @@ def c18(tier):
         "traces_validated_against_impl": len(recs) + len(masks), "evaluations": len(recs) + len(masks),
         "distinct_nontrivial": len({(r["fmt"], str(r["mant"]), r["exp"], r["variant"]) for r in recs}),
         "rule": "biased exponents in [-63, 2100] (f64) / [-63, 320] (f32) (all in thorough) x significands built per shift: kept bits "
-                "{all ones, odd, even, random} x truncated bits {0, 1, half-1, half, half+1, all ones}; nearest-even result must be "
+                "{all ones, odd, even, random} x truncated bits {0, 1, half-1, half, half+1, all ones, half +- one bit at every byte / word boundary (every position in thorough)}; nearest-even result must be "
                 "the oracle's nearest float of mant*2^(exp-bias); truncating result the largest float not above it (below the "
                 "overflow threshold, the callers' domain); mask helpers for n = 0..64; MC_Round checks the model's Round against "
                 "the constructive RN on a small format",
@@ -1274,6 +1291,8 @@ def c16(tier):
         inputs += gen.g_runs(F, rng, 30 if q else 400)
         inputs += gen.g_seams(F, rng)[:: 12 if q else 3]
         inputs += [r for r in gen.g_extremes(F, rng, big=3000) if r["tag"] != "G5:zero"][:: 4 if q else 1]
+        # one decisive digit beyond the digit budget (the tail that is only scanned): what an iterator-dependent scan gets wrong
+        inputs += gen.g_sticky_positions(F, rng, tier)[:: 5 if q else 2]
         # huge values cut after 20..40 digits and written in scientific form: big-integer path with a POSITIVE residual exponent
         for ef in rng.sample(range(F.bias + 70, F.emaxfield), min(16 if q else 60, F.emaxfield - F.bias - 70)):
             M, k = F.midpoint((ef << F.mbits) | rng.getrandbits(F.mbits))
